@@ -1,10 +1,12 @@
 /- `zvdrv plainfile`: stdin lines `<dump>\t<start>`; per line: does the start file meet the decidable hypothesis of
    `c02_file_read` (`plainFileB`), and — executed, as a cross-check of the closed form the theorem states — does the
-   reader model's result equal that closed form. Output: `plain=<0|1|-> closed=<ok|differs|-> files=<n>`. -/
+   reader model's result equal that closed form. Output: `plain=<0|1|-> closed=<ok|differs|-> files=<n>`, then
+   `tok=<0|1>`: the decidable hypothesis `tableOKB` of the termination theorem (`Props/C13All`) on the same parse. -/
 import ZeepVerif.Lemmas.ReadDecide
 import ZeepVerif.Lemmas.ReadDecideX
 import ZeepVerif.Lemmas.ReadDecideG
 import ZeepVerif.Lemmas.ReadGraph
+import ZeepVerif.Lemmas.DepthFile
 import ZeepVerif.Driver.Util
 
 namespace ZeepVerif.Driver.ReadDrv
@@ -51,7 +53,7 @@ def main : IO UInt32 := do
     | [dump, start] =>
       let content ← IO.FS.readFile dump
       let (files, _) := Dump.parse content
-      IO.println (evalOne files start)
+      IO.println (evalOne files start ++ (if ZeepVerif.Lemmas.DepthFile.tableOKB files then " tok=1" else " tok=0"))
     | _ => IO.println "bad-line"
   return 0
 
